@@ -123,6 +123,9 @@ func (c *container) addKv(key, value string) ([]string, bool) {
 	defer c.lock.Unlock()
 
 	c.dirty.Set(true)
+	// a key carries a single value: when it is registered again (updated in place,
+	// or replayed by a reload), drop its previous association first
+	c.doRemoveKey(key)
 	keys := c.values[value]
 	previous := append([]string(nil), keys...)
 	early := len(keys) > 0
